@@ -1,17 +1,30 @@
 #!/bin/bash
 # usage: fuzz/run.sh <target> [runs] [extra libFuzzer args]   — coverage-guided campaign with the in-target oracle
-# the campaign ends after <runs> executions or VERIF_FUZZ_SECONDS (default 600), whichever comes first: both are budgets, not verdicts
+# VERIF_FUZZ_JOBS (default 8) libFuzzer processes share one corpus; job i uses seed VERIF_SEED+i and executes <runs> inputs.
+# A job ends after <runs> executions or VERIF_FUZZ_SECONDS (default 600), whichever comes first: both are budgets, not verdicts.
 # exit 0 = no violation within the budget, 1 = crash artifact written (replay: ./check replay on {"property","section","bytes_hex"}), 2 = build problem
 ROOT="$(cd "$(dirname "$0")/.." && pwd)"
 cd "$ROOT/harness/rdpcheck" || exit 2
 F="$ROOT/fuzz"
 t="$1"; runs="${2:-200000}"; shift; shift
+jobs="${VERIF_FUZZ_JOBS:-8}"
 export CARGO_NET_OFFLINE=true RUSTC_BOOTSTRAP=1 SSL_CERT_FILE=/dev/null SSL_CERT_DIR=/nonexistent
 cargo fuzz build --fuzz-dir "$F" "$t" >/tmp/fuzz-build.$$.log 2>&1 || { tail -20 /tmp/fuzz-build.$$.log; rm -f /tmp/fuzz-build.$$.log; exit 2; }
 rm -f /tmp/fuzz-build.$$.log
-mkdir -p $F/corpus/"$t"
-cargo fuzz run --fuzz-dir "$F" "$t" -- -runs="$runs" -max_total_time="${VERIF_FUZZ_SECONDS:-600}" -seed="${VERIF_SEED:-1}" -len_control=0 -max_len=512 -print_final_stats=1 "$@" > $F/fuzz-"$t".log 2>&1; rc=$?
-grep -E "stat::number_of_executed_units|cov:|VIOLATION" $F/fuzz-"$t".log | tail -4
+bin="$F/target/x86_64-unknown-linux-gnu/release/$t"
+[ -x "$bin" ] || { echo "fuzz binary $bin not found"; exit 2; }
+mkdir -p "$F/corpus/$t" "$F/artifacts/$t"
+seed="${VERIF_SEED:-1}"
+pids=()
+for i in $(seq 0 $((jobs - 1))); do
+  "$bin" "$F/corpus/$t" -artifact_prefix="$F/artifacts/$t/" -runs="$runs" -max_total_time="${VERIF_FUZZ_SECONDS:-600}" -seed=$((seed + i)) -len_control=0 -max_len=512 -print_final_stats=1 "$@" > "$F/fuzz-$t.$i.log" 2>&1 &
+  pids+=($!)
+done
+rc=0
+for p in "${pids[@]}"; do wait "$p" || rc=1; done
+# one combined log: the per-job statistics are summed by the caller
+cat "$F"/fuzz-"$t".[0-9]*.log > "$F/fuzz-$t.log"; rm -f "$F"/fuzz-"$t".[0-9]*.log
+grep -a -E "stat::number_of_executed_units|VIOLATION" "$F/fuzz-$t.log" | tail -10
 [ $rc -eq 0 ] && exit 0
-ls $F/artifacts/"$t"/ 2>/dev/null | tail -3
+ls "$F/artifacts/$t/" 2>/dev/null | tail -3
 exit 1
